@@ -939,17 +939,23 @@ inline int sx_main(int argc, char** argv, const char* property,
     }
     for (auto& a : again) {
       double left = D.opt.deadline - (now() - t0);
-      if (left < 2 * D.results[a.idx].wall + 3) {
-        w2 -= a.weight;
-        continue;
-      }
-      double b = left * a.weight / w2;
+      double b    = left > 0 ? left * a.weight / w2 : 0;
       w2 -= a.weight;
+      if (b < 2 * D.results[a.idx].wall + 2) // would not get further
+        continue;
       if (a.kind == 0)
         D.run_bfs(*(const BfsCase*)a.c, b);
       else
         D.run_enum(*(const EnumCase*)a.c, b);
-      D.results[a.idx] = D.results.back();
+      {
+        // keep whichever run got further
+        CaseResult& nw = D.results.back();
+        CaseResult& od = D.results[a.idx];
+        if (nw.exhaustive || !nw.viol.empty() ||
+            nw.depth_completed > od.depth_completed ||
+            nw.executions > od.executions)
+          D.results[a.idx] = nw;
+      }
       D.results.pop_back();
       CaseResult& R = D.results[a.idx];
       if (a.kind == 0)
